@@ -73,17 +73,28 @@ Shape(n, f) ==
                              kind   |-> [enum |-> <<"t_cafe", "t_naive", "t_plain">>]])
         @@ ("required" :> <<"value">>)
 
+ShapeMore(n, f) ==
+  \* a document whose ROOT is a reference to one of its own definitions (the root is decoded by Schema.UnmarshalJSON, not
+  \* by Type.UnmarshalJSON like every node below it)
+  CASE n = 5 ->
+        Key2("$id", "id", "lid" \in f, f, "https://example.com/s5")
+        @@ ("type" :> T("object", f)) @@ ("$ref" :> Ref("D", f))
+        @@ Key2("$defs", "definitions", "ldefs" \in f, f, [D |-> [type |-> T("object", f), properties |-> [x |-> [type |-> T("integer", f)],
+                                                                                                        y |-> ("$ref" :> Ref("E", f))]],
+                                                            E |-> [type |-> T("string", f)]])
+ShapeAll(n, f) == IF n <= 4 THEN Shape(n, f) ELSE ShapeMore(n, f)
+
 Applicable(n) == CASE n = 1 -> Switches \ {"ldeps"} [] n = 2 -> Switches \ {"lid"} [] n = 3 -> {"ldefs", "tlist", "tsub", "both"}
-                   [] n = 4 -> {"lid", "tlist", "both"}
+                   [] n = 4 -> {"lid", "tlist", "both"} [] n = 5 -> Switches \ {"ldeps", "tsub"}
 
 \* design-level: the parser's normal form is spelling-independent
-DesignOK == ParseSchema(Shape(shape, F)) = ParseSchema(Shape(shape, {}))
+DesignOK == ParseSchema(ShapeAll(shape, F)) = ParseSchema(ShapeAll(shape, {}))
 
-Init == shape \in 1..4 /\ F = {"?"}
+Init == shape \in 1..5 /\ F = {"?"}
 Pick == F = {"?"} /\ F' \in SUBSET Applicable(shape) /\ UNCHANGED shape
 Next == Pick
 Spec == Init /\ [][Next]_vars
 Set == F # {"?"}
 Inv == Set => DesignOK
-Emit == Set => (UnitsFile = "" \/ PrintT("VARIANT " \o ToJson([shape |-> shape, sw |-> F, doc |-> Shape(shape, F)])))
+Emit == Set => (UnitsFile = "" \/ PrintT("VARIANT " \o ToJson([shape |-> shape, sw |-> F, doc |-> ShapeAll(shape, F)])))
 =============================================================================
